@@ -99,7 +99,46 @@ func units(thorough bool) []unit {
 			}
 		}
 	}
-	return append(out, o2Units(thorough)...)
+	return interleave(out, o2Units(thorough))
+}
+
+// interleave spreads the categories of units (log / metric / O2, by pipeline length) evenly over the index space,
+// so that every prefix of the run - in particular a run cut by its deadline - covers all of them in proportion.
+func interleave(lists ...[]unit) []unit {
+	type keyed struct {
+		pos float64
+		cat int
+		u   unit
+	}
+	cats := map[string][]unit{}
+	var order []string
+	for _, l := range lists {
+		for _, u := range l {
+			k := fmt.Sprintf("%v/%s/%d", u.o2, u.kind, len(u.pipe.stages))
+			if _, ok := cats[k]; !ok {
+				order = append(order, k)
+			}
+			cats[k] = append(cats[k], u)
+		}
+	}
+	var all []keyed
+	for ci, k := range order {
+		n := float64(len(cats[k]))
+		for i, u := range cats[k] {
+			all = append(all, keyed{pos: (float64(i) + 0.5) / n, cat: ci, u: u})
+		}
+	}
+	sort.SliceStable(all, func(i, j int) bool {
+		if all[i].pos != all[j].pos {
+			return all[i].pos < all[j].pos
+		}
+		return all[i].cat < all[j].cat
+	})
+	out := make([]unit, len(all))
+	for i, k := range all {
+		out[i] = k.u
+	}
+	return out
 }
 
 // ---------------------------------------------------------------------------------------------------------------
@@ -412,6 +451,7 @@ var toggles = []toggle{
 	{class: "sql_engine_vector_agg_without_grouping_keeps_series", apply: func(r *ref.Rules) { r.VectorAggNoGroupPerSeries = true }, sql: true, metric: true},
 	{class: "sql_engine_json_param_path_uses_last_segment", apply: func(r *ref.Rules) { r.JSONParamLastSegmentOnly = true }, sql: true},
 	{class: "sql_engine_label_filter_before_parser_sees_stream_labels", apply: func(r *ref.Rules) { r.LabelFilterBeforeParserOnStreamLabels = true }, sql: true},
+	{class: "sql_engine_label_filter_sees_later_drop", apply: func(r *ref.Rules) { r.LabelFilterSeesLaterDrop = true }, sql: true},
 	{class: "sql_engine_drop_keeps_fingerprint", apply: func(r *ref.Rules) { r.DropNoRekey = true }, sql: true},
 	{class: "sql_engine_bytes_over_time_divided_by_range", apply: func(r *ref.Rules) { r.BytesOverTimeDivByRange = true }, sql: true, metric: true},
 }
@@ -828,6 +868,8 @@ type unitResult struct {
 	Err      string           `json:"err,omitempty"`
 	// O2: SQL the reference interpreter does not support (never a verdict)
 	Unsupported []string `json:"chsim_unsupported,omitempty"`
+	// the first case of the unit, written out (every 500th unit; evidence samples)
+	Sample *c09lib.Case `json:"sample,omitempty"`
 }
 
 // runUnit executes every case of a unit.  journal is called before each execution.
@@ -849,6 +891,10 @@ func runUnit(ui int, u *unit, journal func(seq int), only int) unitResult {
 		// sc is the same object for all framings of one (db, direction, limit): explanations are found once
 		keep := sc
 		c := keep.buildCase(text, fr)
+		if res.Runs == 0 && ui%500 == 7 {
+			cc := c
+			res.Sample = &cc
+		}
 		journal(seq)
 		out := c09lib.RunScript(script, c)
 		res.Runs++
